@@ -20,7 +20,7 @@ def digest_cases():
     for f in sorted(glob.glob(os.path.join(HERE, "xmc", "props", "c[0-9]*.py"))):
         pid = os.path.basename(f)[:-3].upper()
         mod = importlib.import_module("xmc.props." + pid.lower())
-        cs = mod.cases("quick", 0)
+        cs = mod.cases("quick", 0) if hasattr(mod, "cases") else next(mod.rounds("quick", 0))
         core._init_worker(mod.__name__, 0)
         for idx in (0, len(cs) - 1):
             r = core.run_one(mod, cs[idx], 0)
